@@ -152,7 +152,13 @@ pub struct Sc {
     /// library, on the same thread, while the outer read is in flight
     #[serde(default)]
     pub nested: Option<Box<NestedRead>>,
+    /// an earlier read on the same thread whose reader panics after this many bytes of
+    /// an unfinished record (the panic is caught): nothing of it may reach this read
+    #[serde(default)]
+    pub panicked_after: Option<usize>,
 }
+
+const STALE: &[u8] = b"PKGNAME=stale-9.9\nMAINTAINER=left@behind\nPKG_SKIP_REASON=left behind by an unwound read\nALL_DEPENDS=stale-[0-9]*:../../x/stale";
 
 #[derive(Clone, Debug, Serialize, Deserialize)]
 pub struct NestedRead {
@@ -773,6 +779,7 @@ impl Property for C16 {
                 seam: if rng.chance(1, 2) { Seam::Direct } else { Seam::Buffered(8192) },
                 script: Vec::new(),
                 nested: None,
+                panicked_after: None,
             };
         }
         let n = match rng.below(10) {
@@ -850,8 +857,12 @@ impl Property for C16 {
             },
             script: Vec::new(),
             nested: None,
+            panicked_after: None,
         };
         sc.script = gen_script(rng, &sc);
+        if rng.chance(1, 8) {
+            sc.panicked_after = Some(rng.urange(1, STALE.len()));
+        }
         if rng.chance(1, 6) {
             // a nested read of a small well-formed index from inside the outer reader
             let k = rng.urange(1, 3);
@@ -871,6 +882,12 @@ impl Property for C16 {
     }
 
     fn execute(&self, sc: &Sc, ctx: &mut Ctx) -> Outcome {
+        if let Some(give) = sc.panicked_after {
+            ctx.fault("reader_panicked_in_earlier_call");
+            call_with_panicking_reader(STALE.to_vec(), give.min(STALE.len()), |r| {
+                let _ = ScanIndex::from_reader(BufReader::new(r));
+            });
+        }
         let rend = render(sc);
         let bytes = rend.bytes.clone();
         let inner_result: std::rc::Rc<std::cell::RefCell<Option<std::io::Result<Vec<ScanIndex>>>>> = Default::default();
@@ -882,6 +899,7 @@ impl Property for C16 {
                 seam: Seam::Direct,
                 script: vec![],
                 nested: None,
+                panicked_after: None,
             })
             .bytes;
             Box::new(move || {
